@@ -57,9 +57,16 @@ static void use_item(const jwk_item_t *it) {
 static void load_with_oracle_inner(int entry, int prov, const std::string &bytes);
 // guard = the application has installed its own allocator: nothing it did not hand out may reach its free hook
 static bool G_POLLUTE = false;
+static bool G_PAGEGUARD = false;   // the application's allocator puts every block in front of an inaccessible page
 static void load_with_oracle(int entry, int prov, const std::string &bytes, bool guard = false, bool pollute = false) {
   G_POLLUTE = pollute;
   jwt_set_alloc(NULL, NULL);
+  if (G_PAGEGUARD) { G_PAGEGUARD = false; size_t live0 = pg_live().size(); pg_active() = true; guard_foreign_frees() = 0; jwt_set_alloc(pg_malloc, pg_free); fs().cls("with-page-guard-allocator");
+    load_with_oracle_inner(entry, prov, bytes);
+    jwt_set_alloc(NULL, NULL); pg_active() = false;
+    if (guard_foreign_frees()) oracle_fail("pointer-not-from-installed-allocator-passed-to-its-free", "entry=" + std::to_string(entry) + " doc=" + bytes.substr(0, 400));
+    if (pg_live().size() != live0) oracle_fail("block-from-installed-allocator-never-returned-to-it", "(page-guard allocator) entry=" + std::to_string(entry) + " doc=" + bytes.substr(0, 400));
+    return; }
   size_t ledger0 = guard_live().size();
   if (guard) { guard_active() = true; guard_foreign_frees() = 0; jwt_set_alloc(guard_malloc, guard_free); fs().cls("with-application-allocator"); }
   load_with_oracle_inner(entry, prov, bytes);   // every jansson object of the oracle dies inside
